@@ -6,6 +6,8 @@ INVARIANT RefStable
 INVARIANT Refuses
 INVARIANT Emit
 CONSTANTS
+  MinN = 1
+  MinRules = 0
   MaxN = 6
   PoolSel = "full"
   Codes = {32, 65, 66, 105, 106, 160, 307, 545}
@@ -14,7 +16,7 @@ CONSTANTS
   LigLens = {1, 2, 3}
   Kinds = {"ttf", "cff", "cid"}
   CmapFormats = {"4", "12", "6", "0"}
-  LigFirst = -1
+  LigFirst = 0
   TextSel = "mix"
   Flags = TRUE
   Quiet = FALSE
